@@ -617,7 +617,16 @@ def _replace(e, path, new):
 
 
 def shrink_candidates(plan):
-    """Yield simpler plans, most aggressive first."""
+    """Yield simpler plans, most aggressive first (never one that breaks the precondition under
+    which the plan's huge dimensions were chosen)."""
+    from ..workload import hypersparse_ok
+
+    for cand in _shrink_candidates(plan):
+        if hypersparse_ok(cand):
+            yield cand
+
+
+def _shrink_candidates(plan):
     import copy
 
     if plan.get("capacity_sweep"):
